@@ -786,14 +786,22 @@ func (b *Builder) Finish() error {
 
 	b.finishedShards = map[string]string{}
 
+	if b.buildError != nil {
+		// Not every new shard could be moved into place. Keep the old shards:
+		// the ones that were not replaced are still in toDelete, and removing
+		// them would make the repository disappear from the index.
+		return b.buildError
+	}
+
 	for p := range toDelete {
 		// Don't delete compound shards, set tombstones instead.
 		if b.opts.ShardMerging && strings.HasPrefix(filepath.Base(p), "compound-") {
 			if !strings.HasSuffix(p, ".zoekt") {
 				continue
 			}
-			err := SetTombstone(p, b.opts.RepositoryDescription.ID)
-			b.buildError = err
+			if err := SetTombstone(p, b.opts.RepositoryDescription.ID); err != nil {
+				b.buildError = err
+			}
 			continue
 		}
 		log.Printf("removing old shard file: %s", p)
